@@ -225,32 +225,33 @@ def observe(sub, case, table, source, cid_path=None):
             out = list(cutplace.rows(cid, stream(), on_error="yield", validate_until=limit))
         except Exception as error:
             _fail(sub, "C07|rows|raised-%s|%s" % (type(error).__name__, fmt), case,
-                     "cutplace.rows(on_error='yield', validate_until=%r) raised %s: %s; table %r" % (
-                         limit, type(error).__name__, error, table))
+                  "cutplace.rows(on_error='yield', validate_until=%r) raised %s: %s; table %r" % (
+                      limit, type(error).__name__, error, table))
             return
         expected = table[header:]
         if len(out) != len(expected):
             what = "header-row-returned" if len(out) > len(expected) else "data-row-missing"
             _fail(sub, "C07|rows|%s|%s" % (what, fmt), case,
-                     "header %d, %d rows: expected %d items, got %d: %r" % (
-                         header, len(table), len(expected), len(out), out))
+                  "header %d, %d rows: expected %d items, got %d: %r" % (
+                      header, len(table), len(expected), len(out), out))
             return
         for offset, (item, row) in enumerate(zip(out, expected)):
             number = header + 1 + offset
             if number == bad and reported:
                 if not isinstance(item, errors.DataError):
                     _fail(sub, "C07|rows|rejection-missing|%s" % fmt, case,
-                             "row %d (%r) must be reported with header %d and limit %r but came back as %r" % (
-                                 number, row, header, limit, item))
+                          "row %d (%r) must be reported with header %d and limit %r but came back as %r" % (
+                              number, row, header, limit, item))
                     return
             elif isinstance(item, Exception):
-                _fail(sub, "C07|rows|unexpected-rejection-%s|%s" % ("bad-row-beyond-limit" if number == bad else "good-row", fmt), case,
-                         "row %d (%r) must be returned unvalidated/accepted with header %d and limit %r but was "
-                         "reported: %s" % (number, row, header, limit, item))
+                which = "bad-row-beyond-limit" if number == bad else "good-row"
+                _fail(sub, "C07|rows|unexpected-rejection-%s|%s" % (which, fmt), case,
+                      "row %d (%r) must be returned unvalidated/accepted with header %d and limit %r but was "
+                      "reported: %s" % (number, row, header, limit, item))
                 return
             elif item != row:
                 _fail(sub, "C07|rows|row-changed|%s" % fmt, case,
-                         "row %d is %r, expected %r (header %d, limit %r)" % (number, item, row, header, limit))
+                      "row %d is %r, expected %r (header %d, limit %r)" % (number, item, row, header, limit))
                 return
     elif observer in ("validate", "validate-path"):
         cid = cidlib.load_cid(cid_rows(fmt, header))
@@ -261,26 +262,27 @@ def observe(sub, case, table, source, cid_path=None):
             raised = error
         except Exception as error:
             _fail(sub, "C07|validate|raised-%s|%s" % (type(error).__name__, fmt), case,
-                     "cutplace.validate(validate_until=%r) raised %s: %s; table %r" % (
-                         limit, type(error).__name__, error, table))
+                  "cutplace.validate(validate_until=%r) raised %s: %s; table %r" % (
+                      limit, type(error).__name__, error, table))
             return
         if reported and raised is None:
             _fail(sub, "C07|validate|rejection-missing|%s" % fmt, case,
-                     "bad row %d (%r), header %d, limit %r: validate must raise but returned" % (
-                         bad, table[bad - 1], header, limit))
+                  "bad row %d (%r), header %d, limit %r: validate must raise but returned" % (
+                      bad, table[bad - 1], header, limit))
         elif not reported and raised is not None:
             _fail(sub, "C07|validate|unexpected-rejection-%s|%s" % (zone_text, fmt), case,
-                     "bad row %r, header %d, limit %r: validate must pass but raised %s; table %r" % (
-                         bad, header, limit, raised, table))
+                  "bad row %r, header %d, limit %r: validate must pass but raised %s; table %r" % (
+                      bad, header, limit, raised, table))
     else:
         assert observer in ("main", "main-1"), observer
         argv = ["cutplace"] + until_args(limit, "minus1" if observer == "main-1" else "omit") + [cid_path, source]
         code = run_main(argv)
         expected_code = 1 if reported else 0
         if code != expected_code:
-            _fail(sub, "C07|main|exit-%s-expected-%d%s|%s" % (code, expected_code, "" if reported else "-" + zone_text, fmt), case,
-                     "main(%r) returned %s, expected %d (bad row %r, header %d, limit %r); table %r" % (
-                         argv[1:-2] + ["CID", "DATA"], code, expected_code, bad, header, limit, table))
+            suffix = "" if reported else "-" + zone_text
+            _fail(sub, "C07|main|exit-%s-expected-%d%s|%s" % (code, expected_code, suffix, fmt), case,
+                  "main(%r) returned %s, expected %d (bad row %r, header %d, limit %r); table %r" % (
+                      argv[1:-2] + ["CID", "DATA"], code, expected_code, bad, header, limit, table))
 
 
 # -- family 'bad': enumeration -------------------------------------------------------
@@ -439,22 +441,22 @@ def observe_fault(sub, case):
         raised = error
     except Exception as error:
         _fail(sub, "C07|validate|fault-raised-%s|%s" % (type(error).__name__, fmt), case,
-                 "cutplace.validate(validate_until=%r) on %r raised %s: %s" % (limit, text, type(error).__name__, error))
+              "cutplace.validate(validate_until=%r) on %r raised %s: %s" % (limit, text, type(error).__name__, error))
         return expectation, "other"
     outcome = "pass" if raised is None else type(raised).__name__
     if expectation == "pass" and raised is not None:
         _fail(sub, "C07|validate|reads-beyond-limit|%s" % fmt, case,
-                 "header %d, limit %d: validate must stop after %d data rows (row %d at the latest) but reported the "
-                 "broken row %d: %s; data %r" % (header, limit, limit, header + limit, pos, raised, text))
+              "header %d, limit %d: validate must stop after %d data rows (row %d at the latest) but reported the "
+              "broken row %d: %s; data %r" % (header, limit, limit, header + limit, pos, raised, text))
     elif expectation == "raise" and raised is None:
         what = "fault-not-reported-without-limit" if limit is None else "fault-inside-limit-not-reported"
         _fail(sub, "C07|validate|%s|%s" % (what, fmt), case,
-                 "header %d, limit %r: the broken row %d must be reported but validate returned; data %r" % (
-                     header, limit, pos, text))
+              "header %d, limit %r: the broken row %d must be reported but validate returned; data %r" % (
+                  header, limit, pos, text))
     elif expectation == "raise" and limit is None and not isinstance(raised, errors.DataFormatError):
         _fail(sub, "C07|validate|fault-reported-as-%s|%s" % (type(raised).__name__, fmt), case,
-                 "the broken row %d must be reported as DataFormatError, got %s: %s; data %r" % (
-                     pos, type(raised).__name__, norm_message(raised), text))
+              "the broken row %d must be reported as DataFormatError, got %s: %s; data %r" % (
+                  pos, type(raised).__name__, norm_message(raised), text))
     return expectation, outcome
 
 
